@@ -284,12 +284,16 @@ impl ZincEncode for Grid {
             writer.write_all(b"<<\n")?;
         }
 
-        writer.write_fmt(format_args!("ver:\"{GRID_FORMAT_VERSION}\"\n"))?;
+        writer.write_fmt(format_args!("ver:\"{GRID_FORMAT_VERSION}\""))?;
 
-        // Grid meta
+        // Grid meta, on the same line as the version
         if let Some(meta) = &self.meta {
-            write_dict_tags(writer, meta, b" ")?;
+            if !meta.is_empty() {
+                writer.write_all(b" ")?;
+                write_dict_tags(writer, meta, b" ")?;
+            }
         }
+        writer.write_all(b"\n")?;
 
         if self.is_empty() {
             // No rows to be written
